@@ -185,7 +185,11 @@ class MediaRequestBase(RequestHandlerBase):
             atom = self.load_fragment(
                 media_file, mod_segment, options,
                 parse_samples=(adp_set.content_type == 'video' and options.videoCorruption))
+            # boxes that every media fragment must contain
+            atom.moof.mfhd  # pylint: disable=pointless-statement
             atom.moof.traf.tfhd  # pylint: disable=pointless-statement
+            atom.moof.traf.trun  # pylint: disable=pointless-statement
+            atom.mdat  # pylint: disable=pointless-statement
         except Exception as err:  # pylint: disable=broad-except
             # the stored file no longer matches its index (damaged or replaced)
             logging.error('Failed to parse segment %d of %s: %s',
